@@ -382,10 +382,16 @@ Definition loose (n : node) : doc := {| prologue := []; root := n; epilogue := [
 Definition keep (rc rp : bool) (n : node) : bool :=
   match n with Comment _ => negb rc | PI _ _ => negb rp | _ => true end.
 (* dropping a node between two text nodes makes the reader deliver one text node *)
+Definition strip_items (rc rp : bool) (rec : node -> node) :=
+  fix go (l : list node) : list node :=
+    match l with
+    | [] => []
+    | k :: r => if keep rc rp k then rec k :: go r else go r
+    end.
 Fixpoint strip_node (rc rp : bool) (n : node) : node :=
   match n with
   | Tag ns name attrs kids =>
-      Tag ns name attrs (merge_items (fun x => x) (map (strip_node rc rp) (filter (keep rc rp) kids)))
+      Tag ns name attrs (merge_items (fun x => x) (strip_items rc rp (strip_node rc rp) kids))
   | _ => n
   end.
 Definition strip_doc (rc rp : bool) (d : doc) : doc :=
@@ -394,7 +400,8 @@ Definition strip_doc (rc rp : bool) (d : doc) : doc :=
      epilogue := filter (keep rc rp) (epilogue d) |}.
 Fixpoint count_kind (p : node -> bool) (n : node) : nat :=
   match n with
-  | Tag _ _ _ kids => fold_right (fun k acc => (count_kind p k + acc)%nat) 0%nat kids
+  | Tag _ _ _ kids =>
+      (fix go (l : list node) : nat := match l with [] => 0%nat | k :: r => (count_kind p k + go r)%nat end) kids
   | _ => if p n then 1%nat else 0%nat
   end.
 
